@@ -103,3 +103,32 @@ Theorem C06_address_accepted_wire_forms : forall sha256 ty b t' b', addr_norm_c1
                  t' = AddressDefs.addr_type a /\ (ty = ADDR_STANDARD \/ ty = ADDR_MULTISIG).
 Proof. exact addr_norm_c18_accepts. Qed.
 Print Assumptions C06_address_accepted_wire_forms.
+
+(** the same parsers with the CONCRETE address normalisation [addr_norm_c18 sha256] (what DeserializeFromVbkEncoding(Address) computes,
+    over the C18 text model): its premise [addr_norm_sound] is proved for every sha256 (Serde/AddrNormProofs.v), so nothing but
+    [sha256] stays abstract *)
+From VB Require Serde.AddrNormProofs Serde.AddrNormConcrete.
+Theorem C06_addr_norm_sound_discharged : forall sha256, addr_norm_sound (addr_norm_c18 sha256).
+Proof. exact AddrNormProofs.addr_norm_c18_sound. Qed.
+Print Assumptions C06_addr_norm_sound_discharged.
+Theorem C06_parse_total_Address_concrete : forall sha256, c06_ok (c_address (addr_norm_c18 sha256)).
+Proof. exact AddrNormConcrete.address_c06_concrete. Qed.
+Print Assumptions C06_parse_total_Address_concrete.
+Theorem C06_parse_total_Output_concrete : forall sha256, c06_ok (c_output (addr_norm_c18 sha256)).
+Proof. exact AddrNormConcrete.output_c06_concrete. Qed.
+Print Assumptions C06_parse_total_Output_concrete.
+Theorem C06_parse_total_VbkTx_concrete : forall sha256, c06_ok (c_vbktx (addr_norm_c18 sha256)).
+Proof. exact AddrNormConcrete.vbktx_c06_concrete. Qed.
+Print Assumptions C06_parse_total_VbkTx_concrete.
+Theorem C06_parse_total_VbkPopTx_concrete : forall sha256, c06_ok (c_vbkpoptx (addr_norm_c18 sha256)).
+Proof. exact AddrNormConcrete.vbkpoptx_c06_concrete. Qed.
+Print Assumptions C06_parse_total_VbkPopTx_concrete.
+Theorem C06_parse_total_ATV_concrete : forall sha256, c06_ok (c_atv (addr_norm_c18 sha256)).
+Proof. exact AddrNormConcrete.atv_c06_concrete. Qed.
+Print Assumptions C06_parse_total_ATV_concrete.
+Theorem C06_parse_total_VTB_concrete : forall sha256, c06_ok (c_vtb (addr_norm_c18 sha256)).
+Proof. exact AddrNormConcrete.vtb_c06_concrete. Qed.
+Print Assumptions C06_parse_total_VTB_concrete.
+Theorem C06_parse_total_PopData_concrete : forall sha256, c06_ok (c_popdata (addr_norm_c18 sha256)).
+Proof. exact AddrNormConcrete.popdata_c06_concrete. Qed.
+Print Assumptions C06_parse_total_PopData_concrete.
